@@ -35,8 +35,8 @@ FSITE = {"sqrt": "sqrt_float", "smod2exp": "mod_2exp_float", "umod2exp": "mod_2e
          "assignZ": "assign_float_mpz", "addMul": "add_mul_float", "subMul": "add_mul_float"}
 SITE = {"div": "div_signed_int", "subMul": "sub_mul_int", "umod2exp": "umod_2exp_signed_int",
         "sqrt": "sqrt_signed_int", "lcm": "lcm_gcd_exact", "assignD": "assign_int_float", "assignF": "assign_int_float",
-        "assignZ": "assign_int_mpz", "assignQ": "assign_int_mpq"}
-PROPERTY_OBLIGATIONS = {"holds", "directed", "overflow", "stored", "bounded"}
+        "assignZ": "assign_int_mpz", "assignQ": "assign_int_mpq", "gcdext": "gcdext_exact", "zFromQ": "assign_mpz_mpq"}
+PROPERTY_OBLIGATIONS = {"holds", "directed", "overflow", "stored", "bounded", "bezout"}
 DIRNAME = {0: "ROUND_DOWN", 1: "ROUND_UP", 6: "ROUND_IGNORE", 7: "ROUND_NOT_NEEDED"}
 MIS_RE = re.compile(r"^MISMATCH (\S+) (\S+) (.*)$")
 
